@@ -107,3 +107,108 @@ Proof.
   unfold init_, tail_. rewrite map_removelast, map_tl, netFlux_hom by exact Hd. reflexivity.
 Qed.
 Print Assumptions getdXdt_hom.
+
+Ltac zw_hom := match goal with |- map Q2R (zipWith ?f _ _) = zipWith ?f' _ _ => apply (map_zipWith_hom Q2R Q2R Q2R f f') end.
+
+(* ---- the corrector --------------------------------------------------------------------- *)
+Lemma hom_negT x : Q2R (negT Qops x) = negT Rops (Q2R x).
+Proof. unfold negT. rewrite hom_sub, hom_zero. reflexivity. Qed.
+
+Lemma hom_maxT a b : Q2R (maxT Qops a b) = maxT Rops (Q2R a) (Q2R b).
+Proof. unfold maxT. rewrite hom_ltb. destruct (ltb Rops (Q2R a) (Q2R b)); reflexivity. Qed.
+
+Lemma last_hom l : Q2R (last l (zero Qops)) = last (q2r l) (zero Rops).
+Proof.
+  induction l as [|a [|b l] IH]; [apply hom_zero | reflexivity |].
+  change (last (a :: b :: l) (zero Qops)) with (last (b :: l) (zero Qops)).
+  change (q2r (a :: b :: l)) with (Q2R a :: q2r (b :: l)).
+  change (last (Q2R a :: q2r (b :: l)) (zero Rops)) with (last (q2r (b :: l)) (zero Rops)). exact IH.
+Qed.
+
+Lemma hd_hom l : Q2R (hd (zero Qops) l) = hd (zero Rops) (q2r l).
+Proof. destruct l; [apply hom_zero | reflexivity]. Qed.
+
+Lemma limitBelow_hom dt nf psd : ~ (dt == 0)%Q ->
+  q2r (limitBelow Qops dt nf psd) = limitBelow Rops (Q2R dt) (q2r nf) (q2r psd).
+Proof.
+  intros Hdt. unfold limitBelow. rewrite map_app. cbn [map]. rewrite last_hom. apply (f_equal2 (@app R)); [|reflexivity].
+  unfold init_. rewrite <- map_removelast.
+  zw_hom. intros f p.
+  rewrite hom_ltb, hom_mul, hom_negT.
+  destruct (ltb Rops _ _); [|reflexivity]. rewrite hom_dvd by exact Hdt. rewrite hom_negT. reflexivity.
+Qed.
+
+Lemma limitAbove_hom dt nf psd : ~ (dt == 0)%Q ->
+  q2r (limitAbove Qops dt nf psd) = limitAbove Rops (Q2R dt) (q2r nf) (q2r psd).
+Proof.
+  intros Hdt. unfold limitAbove. cbn [map]. rewrite hd_hom. apply (f_equal2 (@cons R)); [reflexivity|].
+  unfold tail_. rewrite <- map_tl.
+  zw_hom. intros f p.
+  rewrite hom_ltb, hom_mul.
+  destruct (ltb Rops _ _); [|reflexivity]. rewrite hom_dvd by exact Hdt. reflexivity.
+Qed.
+
+Lemma outflowOf_hom dt fl fr : Q2R (outflowOf Qops dt fl fr) = outflowOf Rops (Q2R dt) (Q2R fl) (Q2R fr).
+Proof. unfold outflowOf. rewrite hom_mul, hom_add, !hom_maxT, hom_negT, hom_zero. reflexivity. Qed.
+
+Lemma zip3_hom_dep (fq : Q -> Q -> Q -> Q) (fr : R -> R -> R -> R) (P : Q -> Prop) a b d :
+  (forall x y z, P z -> Q2R (fq x y z) = fr (Q2R x) (Q2R y) (Q2R z)) ->
+  Forall P d -> q2r (zip3 fq a b d) = zip3 fr (q2r a) (q2r b) (q2r d).
+Proof.
+  intros H. revert b d; induction a as [|x a IH]; intros [|y b] [|z d] Hd; cbn [zip3 map]; auto.
+  inversion Hd as [|? ? Hz Hd']; subst. rewrite H by exact Hz. rewrite IH by exact Hd'. reflexivity.
+Qed.
+
+Lemma scaleOf_hom dt nf psd : Forall (fun p => (0 <= p)%Q) psd ->
+  q2r (scaleOf Qops dt nf psd) = scaleOf Rops (Q2R dt) (q2r nf) (q2r psd).
+Proof.
+  intros Hp. unfold scaleOf, init_, tail_. rewrite <- map_removelast, <- map_tl.
+  apply (zip3_hom_dep _ _ (fun p => (0 <= p)%Q)); [|exact Hp].
+  intros fl fr p Hp0. cbv zeta. rewrite hom_ltb, outflowOf_hom.
+  destruct (ltb Rops (Q2R p) _) eqn:E; [|apply hom_one].
+  rewrite hom_dvd; [rewrite outflowOf_hom; reflexivity|].
+  (* the divisor exceeds p >= 0, hence is not zero *)
+  rewrite <- outflowOf_hom, <- hom_ltb in E. cbn [ltb Qops] in E. unfold Qltb in E.
+  destruct (Qcompare p (outflowOf Qops dt fl fr)) eqn:C; try discriminate.
+  apply Qlt_alt in C. intros Hz. rewrite Hz in C. apply (Qlt_not_le _ _ C). exact Hp0.
+Qed.
+
+Lemma limitClass_hom dt nf psd : Forall (fun p => (0 <= p)%Q) psd ->
+  q2r (limitClass Qops dt nf psd) = limitClass Rops (Q2R dt) (q2r nf) (q2r psd).
+Proof.
+  intros Hp. unfold limitClass. cbv zeta.
+  set (LQ := zipWith (fun f s => if ltb Qops f (zero Qops) then mul Qops f s else f) (init_ nf) (scaleOf Qops dt nf psd)
+             ++ [last nf (zero Qops)]).
+  set (LR := zipWith (fun f s => if ltb Rops f (zero Rops) then mul Rops f s else f) (init_ (q2r nf)) (scaleOf Rops (Q2R dt) (q2r nf) (q2r psd))
+             ++ [last (q2r nf) (zero Rops)]).
+  assert (E1 : q2r LQ = LR).
+  { unfold LQ, LR. rewrite map_app. cbn [map]. rewrite last_hom. apply (f_equal2 (@app R)); [|reflexivity].
+    rewrite <- scaleOf_hom by exact Hp. unfold init_. rewrite <- map_removelast.
+    zw_hom. intros f s. rewrite hom_ltb, hom_zero.
+    destruct (ltb Rops _ _); [apply hom_mul | reflexivity]. }
+  cbn [map]. rewrite hd_hom, E1. apply (f_equal2 (@cons R)); [reflexivity|].
+  transitivity (zipWith (fun f s => if ltb Rops (zero Rops) f then mul Rops f s else f) (tail_ LR)
+                        (scaleOf Rops (Q2R dt) (q2r nf) (q2r psd))); [|reflexivity].
+  rewrite <- E1, <- scaleOf_hom by exact Hp. unfold tail_. rewrite <- map_tl.
+  zw_hom. intros f s. rewrite hom_ltb, hom_zero.
+  destruct (ltb Rops _ _); [apply hom_mul | reflexivity].
+Qed.
+
+Theorem correctFlux_hom dt nf psd : ~ (dt == 0)%Q -> Forall (fun p => (0 <= p)%Q) psd ->
+  q2r (correctFlux Qops dt nf psd) = correctFlux Rops (Q2R dt) (q2r nf) (q2r psd).
+Proof.
+  intros Hdt Hp. unfold correctFlux.
+  rewrite limitClass_hom by exact Hp. rewrite limitAbove_hom by exact Hdt. rewrite limitBelow_hom by exact Hdt.
+  reflexivity.
+Qed.
+
+Theorem correctdXdt_hom dt b p g nr rn :
+  Forall (fun z => ~ (z == 0)%Q) (diffs Qops b) -> ~ (dt == 0)%Q -> Forall (fun x => (0 <= x)%Q) p ->
+  q2r (correctdXdt Qops dt b p g nr rn) =
+    correctdXdt Rops (Q2R dt) (q2r b) (q2r p) (q2r g) (Q2R nr) (Q2R rn).
+Proof.
+  intros Hd Hdt Hp. unfold correctdXdt, dXdt_of. rewrite add_at_hom, nRad_hom. f_equal.
+  rewrite (map_zipWith_hom Q2R Q2R Q2R _ (sub Rops)) by (intros; apply hom_sub).
+  unfold init_, tail_. rewrite map_removelast, map_tl, correctFlux_hom, netFlux_hom by assumption. reflexivity.
+Qed.
+Print Assumptions correctdXdt_hom.
